@@ -42,7 +42,7 @@ logging.getLogger().addHandler(logging.NullHandler())  # never fall back to the 
 
 UTC = dt.timezone.utc
 DEFAULT_START_UTC = dt.datetime(2020, 7, 1, 19, 0, 0, tzinfo=UTC)  # 12:00 local (US/Pacific, PDT)
-RAMDISK = "/dev/shm" if os.path.isdir("/dev/shm") else tempfile.gettempdir()
+RAMDISK = os.environ.get("VERIF_TMP") or ("/dev/shm" if os.path.isdir("/dev/shm") else tempfile.gettempdir())
 
 
 # ------------------------------------------------------------------------------------------------
@@ -190,10 +190,23 @@ class LogCapture(logging.Handler):
         self.records.append((record.name, record.levelname, msg))
 
 
+GC_PERIOD = 40
+
+
 class World:
+    _count = 0
+
     def __init__(self, files=None, legacy=False, config=None, start_utc=DEFAULT_START_UTC, capture_logs=False,
                  allow_all_imports=False, started=True, log_level=logging.WARNING, thread_executor=False):
-        gc.collect(0)
+        # Garbage collection policy: automatic collections are off (a full collection walks the whole Home
+        # Assistant heap, ~100 ms, and 16 workers doing that saturate the memory system).  Each world freezes what
+        # exists after set-up, so the explicit gc.collect() between operations only sees the operations' own
+        # garbage; every GC_PERIOD worlds everything is unfrozen and collected once.
+        gc.disable()
+        World._count += 1
+        if World._count % GC_PERIOD == 0:
+            gc.unfreeze()
+            gc.collect()
         hard_reset()
         self.closed = False
         self.loop = loop = VirtualLoop()
@@ -414,7 +427,6 @@ class World:
         if self.closed:
             return
         self.closed = True
-        gc.unfreeze()
         try:
             if self.hass is not None:
                 try:
